@@ -143,7 +143,35 @@ instruction list it is total: every instruction list no longer than a `Vec` can 
 well-formed machine, provided operands fit their Rust types. -/
 theorem from_module_total (prog : List Instr) (g : List (Nat × Value)) (sd : List (Nat × List (Nat × Ty)))
     (fd : List (Nat × FactDef)) (hl : prog.length ≤ isizeMax) (hf : ∀ i ∈ prog, i.operandsFit) :
-    WFm ⟨prog, g, sd, fd⟩ := ⟨hl, hf⟩
+    WFm { progmem := prog, globals := g, structDefs := sd, factDefs := fd } := ⟨hl, hf⟩
+
+/-! ## entry points: `call_action`, `call_command_policy`, `call_seal`, `call_open` -/
+
+/-- **C25 (entry calls)**: for every machine and every entry call — arbitrary (unknown) names,
+arbitrary (ill-typed, wrong-arity) arguments and `this` data, any context, any well-formed run state
+to start from, any environment — the wrapper followed by `run` returns an exit or a machine error
+(or is still running when the budget is used up); never a host panic. -/
+theorem call_outcomes (m : Machine) (env : Nat → List IoRes) (hm : WFm m) (fuel : Nat) (e : Entry)
+    (s : RunState) (hs : WFs s) :
+    (∃ r s', call m env fuel e s = .exit r s' ∧ WFs s') ∨ (∃ er s', call m env fuel e s = .machineError er s') ∨
+    (∃ s', call m env fuel e s = .outOfFuel s' ∧ WFs s') := by
+  have h := enter_safe m e s hs
+  unfold call
+  cases hx : enter m e s with
+  | ok a s' => rw [hx] at h; exact run_outcomes m env hm fuel 0 s' h.1
+  | err er s' => exact Or.inr (Or.inl ⟨er, s', rfl⟩)
+  | panic => rw [hx] at h; exact h.elim
+
+theorem call_no_panic (m : Machine) (env : Nat → List IoRes) (hm : WFm m) (fuel : Nat) (e : Entry)
+    (s : RunState) (hs : WFs s) : call m env fuel e s ≠ .hostPanic := by
+  rcases call_outcomes m env hm fuel e s hs with ⟨r, s', h, _⟩ | ⟨er, s', h⟩ | ⟨s', h, _⟩ <;>
+    (rw [h]; intro hh; cases hh)
+
+/-- the `setup_*` functions alone (public API): `Ok` with a well-formed state or `Err`, never a panic -/
+theorem setup_action_safe (m : Machine) (name : Nat) (args : List Value) (s : RunState) (hs : WFs s) :
+    (setupAction m name args s).safe T := safe_setupAction m name args s hs
+theorem setup_command_safe (m : Machine) (lt : LabelType) (tn : Nat) (tf : Fields) (s : RunState) (hs : WFs s) :
+    (setupCommand m lt tn tf s).safe T := safe_setupCommand m lt tn tf s hs
 
 /-! ## the defects, as statements about the instruction semantics with the pre-fix flags -/
 
@@ -161,8 +189,10 @@ theorem mstructSet_panics_before_fix (s : RunState) :
 /-! ## non-vacuity and sanity -/
 
 def demoMachine : Machine :=
-  ⟨[.Const (.int 5), .Const (.int 7), .Add, .Next, .MStructSet usizeMax, .Jump (.Resolved (2 ^ 64 - 1)),
-    .FactCount i64Max, .RestoreSP, .Return], [], [], []⟩
+  { progmem := [.Const (.int 5), .Const (.int 7), .Add, .Next, .MStructSet usizeMax,
+                .Jump (.Resolved (2 ^ 64 - 1)), .FactCount i64Max, .RestoreSP, .Return],
+    globals := [], structDefs := [], factDefs := [],
+    labels := [((3, .Action), 0)], actionDefs := [(3, [(8, .int)])] }
 
 example : WFm demoMachine := by
   refine ⟨by decide, ?_⟩
@@ -171,16 +201,28 @@ example : WFm demoMachine := by
   rcases hi with rfl | rfl | rfl | rfl | rfl | rfl | rfl | rfl | rfl <;> simp [Instr.operandsFit]
 
 /-- a well-formed state with a full stack and a call stack holding the largest admissible value -/
-example : WFs { RunState.init .policy with stack := List.replicate stackSize .unit,
-                                           callState := [usizeMax - 1, 0] } :=
+example : WFs { pc := 7, stack := List.replicate stackSize Value.unit, callState := [usizeMax - 1, 0],
+                scope := [[[]]], ctx := .policy 0, iters := [], io := [] } :=
   ⟨by simp [RunState.init, stackSize], by
     intro x hx
     simp only [RunState.init, List.mem_cons, List.mem_nil_iff, or_false] at hx
     rcases hx with rfl | rfl <;> decide⟩
 
 /-- `Next` on the fixed tree is an ordinary machine error -/
-example : step ⟨[.Next], [], [], []⟩ (RunState.init .action) [] =
-    .error .invalidInstruction (RunState.init .action) := by
+example : step { progmem := [.Next], globals := [], structDefs := [], factDefs := [] }
+      (RunState.init (.action 0)) [] =
+    .error .invalidInstruction (RunState.init (.action 0)) := by
   simp [step, RunState.init, exec, execNextLast, execNextLastWith, nextLast_fixed, throw]
+
+/-- non-vacuity of the entry-call theorems: a well-typed action call on `demoMachine` enters;
+an ill-typed one, a wrong-arity one and an unknown name are machine errors -/
+example : ∃ s', enter demoMachine (.action 3 [.int 1]) (RunState.init (.action 3)) = .ok () s' ∧ s'.stack = [.int 1] :=
+  ⟨_, rfl, rfl⟩
+example : ∃ s', enter demoMachine (.action 3 [.bool true]) (RunState.init (.action 3)) = .err .invalidType s' :=
+  ⟨_, rfl⟩
+example : ∃ s', enter demoMachine (.action 3 []) (RunState.init (.action 3)) = .err .unknown s' := ⟨_, rfl⟩
+example : ∃ s', enter demoMachine (.action 4 []) (RunState.init (.action 4)) = .err .notDefined s' := ⟨_, rfl⟩
+example : ∃ s', enter demoMachine (.action 3 [.int 1]) (RunState.init (.policy 3)) = .err .contextMismatch s' :=
+  ⟨_, rfl⟩
 
 end AranyaV.VM
